@@ -97,6 +97,10 @@ class Engine:
         self.obl_mode = "batch"   # "each": one solver query per obligation (faster for LRA bounds)
         self.refine = None         # fn(engine) -> extra constraints for replay-friendly models
         self.path_vars = {}        # name -> z3 const created on this path (for models)
+        self.fast_ms = None        # if set: incremental query capped at fast_ms, then retried on a
+                                   # fresh (non-incremental, fully preprocessed) solver
+        self._msolver = None
+        self.nfallback = 0
 
     def _mk_solver(self):
         if self.tactic:
@@ -108,9 +112,33 @@ class Engine:
     # ---- solver plumbing -------------------------------------------------
     def _check(self, *extra, timeout=None):
         self.nchecks += 1
+        full = timeout if timeout is not None else self.timeout_ms
+        self._msolver = self.solver
+        t = time.time()
+        if self.fast_ms is not None:
+            self.solver.set("timeout", min(self.fast_ms, full))
+            r = str(self.solver.check(*extra))
+            self.solver.set("timeout", self.timeout_ms)
+            if r == "unknown":
+                # z3's incremental core skips the preprocessing tactics; a fresh
+                # solver on the same assertions often decides at once
+                self.nfallback += 1
+                # portfolio: legacy simplex core, then the default one
+                for cfg, ms in ((2, min(full, 400)), (6, min(full, 400)), (2, min(full, 5000)), (6, full), (2, full)):
+                    s2 = z3.Solver()
+                    s2.set("timeout", ms)
+                    s2.set("arith.solver", cfg)
+                    s2.add(self.solver.assertions())
+                    for x in extra:
+                        s2.add(x)
+                    r = str(s2.check())
+                    self._msolver = s2
+                    if r != "unknown":
+                        break
+            self.solver_s += time.time() - t
+            return r
         if timeout is not None:
             self.solver.set("timeout", timeout)
-        t = time.time()
         r = self.solver.check(*extra)
         self.solver_s += time.time() - t
         if timeout is not None:
@@ -124,7 +152,7 @@ class Engine:
                 raise Inconclusive("path condition: unknown")
             if r == "unsat":
                 raise RuntimeError("infeasible path condition")
-            self.model = self.solver.model()
+            self.model = self._msolver.model()
         return self.model
 
     def fresh(self, base, sort="Real"):
@@ -152,7 +180,7 @@ class Engine:
         if r == "unknown":
             raise Inconclusive("feasibility: unknown")
         if r == "sat":
-            self.model = self.solver.model()
+            self.model = self._msolver.model()
         return r == "sat"
 
     def decide(self, expr):
@@ -185,7 +213,7 @@ class Engine:
                 t = self._check(expr)
                 f = self._check(z3.Not(expr))
                 if "unknown" in (t, f):
-                    raise Inconclusive("decide: unknown")
+                    raise Inconclusive("decide: unknown on %s" % str(expr)[:200])
                 if t == "sat" and f == "sat":
                     self.pending.append((list(self.trace) + [False], dict(self.trace_vals)))
                     val = True
@@ -198,7 +226,7 @@ class Engine:
                 other = z3.Not(expr) if cur else expr
                 r = self._check(other)
                 if r == "unknown":
-                    raise Inconclusive("decide: unknown")
+                    raise Inconclusive("decide: unknown on %s" % str(other)[:200])
                 if r == "sat":
                     self.pending.append((list(self.trace) + [not cur], dict(self.trace_vals)))
                 val = cur
@@ -353,7 +381,7 @@ class Engine:
                     else:
                         self._record_cex([o], res, "cex")
             else:
-                m = self.solver.model()
+                m = self._msolver.model()
                 bad = [o for o in plain
                        if not z3.is_true(m.eval(o.expr, model_completion=True))]
                 res["unsat"] += len(plain) - len(bad)
@@ -368,15 +396,15 @@ class Engine:
                 res["unknown"] += 1
                 res["errors"].append("unknown obligation: %s" % o.label)
             else:
-                self._record_cex([o], res, "cex", self.solver.model(), side=z3.And([z3.Not(rg) for rg in regs]))
+                self._record_cex([o], res, "cex", self._msolver.model(), side=z3.And([z3.Not(rg) for rg in regs]))
             for (kid, _), rg in zip(o.known, regs):
                 r = self._check(z3.And(rg, z3.Not(o.expr)), timeout=self.obl_timeout_ms)
                 if r == "sat":
-                    self._record_cex([o], res, "known", self.solver.model(), kid, side=rg)
+                    self._record_cex([o], res, "known", self._msolver.model(), kid, side=rg)
 
     def _record_cex(self, bad, res, kind, m=None, kid=None, side=None):
         if m is None:
-            m = self.solver.model()
+            m = self._msolver.model()
         if self.refine is not None and bad:
             # ask for a model that survives conversion to floats (harness specific)
             neg = z3.Or([z3.Not(o.expr) for o in bad])
@@ -384,7 +412,7 @@ class Engine:
             try:
                 r = self._check(neg, *extra, timeout=self.obl_timeout_ms)
                 if r == "sat":
-                    m = self.solver.model()
+                    m = self._msolver.model()
             except z3.Z3Exception:
                 pass
         res["sat"] += len(bad) if kind == "cex" else 0
